@@ -77,7 +77,23 @@ def evaluate(case):
     return evaluate_string("".join(case["s"]))
 
 
+PURE_STRINGS = ["%26", "%3D", "%3A", "%40", "%2F", "%3F", "%23", "%25", "a=b", "a:b", "a b", "%20", "é", "%C3%A9", "%41", "%2541", "%", "%zz",
+                "a/b", "a?b", "a#b", "a&b", "a@b", "%7F", "%E9", "x%26y=z"]
+
+
+def pure_labels():
+    return [{"fn": fn, "s": s} for fn in FNS for s in PURE_STRINGS]
+
+
+def pure_thunk(label):
+    f = getattr(importlib.import_module("ural.quote"), label["fn"])
+    s = label["s"]
+    return lambda: core.call(f, s)
+
+
 def judge(w):
+    if "history" in w:
+        return core.judge_history(PROP + ".pure", w, pure_thunk)
     fails, _, _ = evaluate_string("".join(w["s"]))
     return fails
 
@@ -106,6 +122,8 @@ def explore(chk):
         "followed to a fixed point. distinct_nontrivial = distinct output tuples." % (m.k, len(m.tokens), m.core_k, len(m.core_tokens))
     )
     failures, tags = grid.run(chk, g, None, evaluate, shrink=(lambda case: {"s": case["s"]}, g.simplify, fails_fn))
+    chk.rule.append("H2: every ordered pair of %d quote-function calls from a reset module state (no result may depend on an earlier call)." % len(pure_labels()))
+    core.explore_pairs(chk, PROP + ".pure", [(l, pure_thunk(l)) for l in pure_labels()])
     chk.add("transitions", chk.cov["states"] * len(FNS) * 2)
     chk.add("evaluations", chk.cov["states"] * len(FNS))
     chk.cov["bounds"] = {"k": m.k, "alphabet": len(m.tokens), "core_k": m.core_k, "core_alphabet": len(m.core_tokens)}
